@@ -195,7 +195,7 @@ def lean_build_and_audit(prop: str, extra_modules: List[str] = (), thorough: boo
     for t in st.theorems:
         st.axioms[t] = None  # type: ignore
     # output forms:  "'X' depends on axioms: [a, b]"   /   "'X' does not depend on any axioms"
-    for m in re.finditer(r"'([^']+)' (does not depend on any axioms|depends on axioms: \[([^\]]*)\])", out, re.S):
+    for m in re.finditer(r"'(\S+?)' (does not depend on any axioms|depends on axioms: \[([^\]]*)\])", out, re.S):
         name = m.group(1)
         axs = [] if m.group(3) is None else [a.strip() for a in m.group(3).replace('\n', ' ').split(',') if a.strip()]
         st.axioms[name] = axs
